@@ -48,9 +48,24 @@ def oracle_epeq(case, impl):
     return None
 
 
+def oracle_failover(case, impl):
+    """C09 at the resolver/manager joint: error-threshold consecutive failed queries on the active endpoint start an
+    election, and with a healthy alternative later queries use it."""
+    import re
+    m = re.match(r"final=(\w+) changed=([01])$", impl)
+    if not m:
+        return "failover run did not complete: " + impl[:80]
+    if m.group(1) != "B":
+        f = case.split(" ")
+        return ("the active endpoint failed every one of %s queries (error threshold %s) while a healthy alternative existed, "
+                "but later queries are %s: no failover" % (f[2], f[1], "still sent to the dead endpoint" if m.group(1) == "fail" else "answered by A"))
+    return None
+
+
 SPEC = dict(
     lean_module="NV.Props.C09",
-    areas=[dict(name="epeq", n_quick=20000, n_thorough=400000, shards_thorough=4, oracle=oracle_epeq),
+    areas=[dict(name="failover", n_quick=4, n_thorough=40, shards_thorough=4, oracle=oracle_failover, timeout=600),
+           dict(name="epeq", n_quick=20000, n_thorough=400000, shards_thorough=4, oracle=oracle_epeq),
            dict(name="mgr", n_quick=4000, n_thorough=160000, shards_thorough=8,
                 oracle=lambda c, i: oracle_mgr(c, i, "c09"), nontrivial=nontrivial_mgr, timeout=1200),
            dict(name="mgrc", n_quick=40, n_thorough=1600, shards_thorough=8, oracle=oracle_soak, timeout=1200),
